@@ -8571,7 +8571,9 @@ class Do_Term_Shared_Stmt(StmtBase):  # R842
     C826 - see C824 above.
     """
 
-    subclass_names = ["Action_Stmt"]
+    # C826: as C824 except that a <continue-stmt> is permitted.
+    subclass_names = Action_Stmt_C824.subclass_names[:]
+    subclass_names.append("Continue_Stmt")
 
 
 class Cycle_Stmt(StmtBase, WORDClsBase):  # R843
